@@ -561,6 +561,7 @@ func freeRound(seed int64, run *report.Run) (string, string, fwitness) {
 	inflight := map[int]int{}
 	created := map[int]int{}
 	deleted := map[int]int{}
+	liveOfKey := map[int]int{} // values of the key handed out by create and not yet reported deleted
 	var nextVal atomic.Int64
 	var sig, what string
 	flag := func(s, wh string) {
@@ -582,6 +583,11 @@ func freeRound(seed int64, run *report.Run) (string, string, fwitness) {
 				}
 				o.Created = true
 			}
+			if liveOfKey[k] > 0 {
+				// the key is being created again although the delete callback for its previous value has not
+				// returned yet: the user sees two live values of one key (callbacks and list updates are not atomic)
+				flag("lru/create-while-previous-value-live", fmt.Sprintf("free-running: the create function was called for key %d while the delete callback of its previous value had not finished", k))
+			}
 			mu.Unlock()
 			r := rand.New(rand.NewSource(seed ^ id ^ int64(k)<<20 ^ nextVal.Load()))
 			switch r.Intn(3) {
@@ -599,12 +605,17 @@ func freeRound(seed int64, run *report.Run) (string, string, fwitness) {
 			}
 			v := int(nextVal.Add(1))
 			created[v] = k
+			liveOfKey[k]++
 			return v, nil
 		},
 		func(k, v int) {
 			id := goid()
+			if (int64(v)+seed)%3 == 0 {
+				time.Sleep(40 * time.Microsecond) // a slow callback: the cache must keep everybody out meanwhile
+			}
 			mu.Lock()
 			deleted[v]++
+			liveOfKey[k]--
 			if o := cur[id]; o != nil {
 				o.Deletes = append(o.Deletes, kv{k, v})
 			}
@@ -699,7 +710,7 @@ func freeRound(seed int64, run *report.Run) (string, string, fwitness) {
 func TestCheck(t *testing.T) {
 	run := report.New("C09", "exploration")
 	defer run.Finish(t)
-	run.Rule("controlled: 2-4 workers x 1-4 operations over {GetOrCreate k, Remove k, Clear}, keys 1-3, capacity 1-3, inside a synctest bubble; gates at the start of every operation and inside the create callback (released as success or failure); one gate per step after quiescence; random / PCT schedules and exhaustive DFS of 72 two-worker configurations. Monitors: at most one creation per key in progress; at every quiescent point resident = created-deleted <= capacity, in-flight table = creations in progress, list structure (hook); at the end Clear and every created value deleted exactly once; the history (returned values, whether create ran, delete callbacks per call) checked by porcupine against the sequential LRU model. free-running: 3-8 goroutines, yielding / sleeping / failing creations, same monitors under the race detector. distinct = distinct (configuration, action trace) pairs")
+	run.Rule("controlled: 2-4 workers x 1-4 operations over {GetOrCreate k, Remove k, Clear}, keys 1-3, capacity 1-3, inside a synctest bubble; gates at the start of every operation and inside the create callback (released as success or failure); one gate per step after quiescence; random / PCT schedules and exhaustive DFS of 72 two-worker configurations. Monitors: at most one creation per key in progress; at every quiescent point resident = created-deleted <= capacity, in-flight table = creations in progress, list structure (hook); at the end Clear and every created value deleted exactly once; the history (returned values, whether create ran, delete callbacks per call) checked by porcupine against the sequential LRU model. free-running: 3-8 goroutines, yielding / sleeping / failing creations, sometimes slow delete callbacks (a key must not be created again before the delete callback of its previous value has returned), same monitors under the race detector. distinct = distinct (configuration, action trace) pairs")
 	run.Assume("logical timestamps (scheduler steps) in the controlled part: operations that overlap a step are treated as concurrent, which can only make the linearizability check more permissive")
 
 	if p := os.Getenv("VERIF_REPLAY"); p != "" {
